@@ -136,8 +136,7 @@ def run(ctx):
     mv = re.fullmatch(r"v(\d+)\.(\d+)", vtxt)
     build_version = (int(mv.group(1)), int(mv.group(2))) if mv else (0, 0)
     cases = solcore.gen(rng, ctx.tier, n_quick=36, n_thorough=800)
-    for c in cases:
-        c["ViaPre"] = False
+    # (cases solved from the .inkfempre text read back are kept: solve x.inkfempre writes a solution file too)
     if ctx.replay:
         import json
         rep = json.load(open(ctx.replay))["replay"]
